@@ -269,9 +269,15 @@ def ops_text(cases):
 
 def run_exec(hx, cases, work, tag, timeout=3600):
     """Runs the implementation side; restarts after a crashed/timed-out case. -> {id: (lines, complete)}"""
-    results, remaining, guard = {}, list(cases), 0
+    results, remaining, guard, crashes = {}, list(cases), 0, 0
     while remaining and guard < 50:
         guard += 1
+        if crashes >= 6:
+            # six cases already crashed or hung the process (each one is reported as a failure): the rest of the
+            # batch is skipped rather than paying the per-case timeout for every remaining case
+            for cid, _ in remaining:
+                results[cid] = (["#skipped"], True, "")
+            break
         p = os.path.join(work, "ops-%s-%d.txt" % (tag, guard))
         open(p, "w").write(ops_text(remaining))
         with open(p, "rb") as fin:
@@ -286,6 +292,7 @@ def run_exec(hx, cases, work, tag, timeout=3600):
         done_ids = {cid for cid, _, _ in got}
         if rc == 0 and all(c for _, _, c in got) and len(got) == len(remaining):
             break
+        crashes += 1
         if not got:
             # died before the first case: mark it crashed and move on
             cid = remaining[0][0]
@@ -480,6 +487,9 @@ def check(pid, tier, seed, n_override=None, replay=None):
         for cid, ops in cases:
             im = impl.get(cid, ([], False, "case missing from exec output"))
             mo = model.get(cid)
+            if "#skipped" in im[0]:
+                stats["skipped_after_crashes"] = stats.get("skipped_after_crashes", 0) + 1
+                continue
             stats["evaluations"] += 1
             stats["ops"] += len(ops)
             nt, kinds = meta_of(im)
@@ -496,6 +506,12 @@ def check(pid, tier, seed, n_override=None, replay=None):
                     seen_known.setdefault(f["sig"], (cid, f))
                     continue
                 failing.setdefault((f["kind"], f["sig"]), (cid, ops, f, im[0], mo))
+        if stats.get("skipped_after_crashes") and not failing:
+            # cases may only be skipped after failures that are themselves reported as violations
+            cid, ops = cases[0]
+            failing[("crash", "cases-skipped-without-a-reported-failure")] = (
+                cid, ops, {"kind": "crash", "sig": "cases-skipped-without-a-reported-failure",
+                           "detail": "%d cases skipped" % stats["skipped_after_crashes"]}, [], None)
         if not stats["samples"] and cases:
             cid, ops = cases[0]
             stats["samples"].append({"case": cid, "ops": ops[:12], "impl": impl.get(cid, ([],))[0][:12]})
@@ -586,6 +602,7 @@ def write_evidence(cfg, tier, seed, proof, stats, nviol, known_lines, wall, note
             "ops_executed": stats["ops"],
             "kinds_histogram": dict(sorted(stats["kinds"].items())),
             "model_impl_diff_cases": stats["diff_cases"],
+            "cases_skipped_after_six_crashes": stats.get("skipped_after_crashes", 0),
             "go_statement_coverage": stats.get("cover"),
             "correspondence": "%s (Go, real code in-process) vs %s (Lean model), same op lines, outputs diffed line by line" % (
                 cfg["harness_pkg"], cfg["driver"]),
